@@ -194,11 +194,8 @@ void Network::start_write(int id, const std::vector<boost::asio::const_buffer>& 
         [this, id](asio::cancellation_type_t) {
             Conn* c = conn(id);
             if (!c || !c->write_op || !c->write_op->pending()) return;
-            if (c->write_event) { w.cancel_event(c->write_event); c->write_event = 0; }
             w.tr("write_opcancel", id);
-            w.count("net.write_cancelled");
-            auto op = c->write_op; c->write_op = nullptr;
-            op->complete(asio::error::operation_aborted, 0);
+            finish_pending_write(*c, asio::error::operation_aborted);
         });
     WriteRec rec;
     rec.id = writes.size() + 1; rec.conn = id; rec.seq_start = w.next_seq(); rec.t_start = w.now;
@@ -268,6 +265,60 @@ void Network::start_write(int id, const std::vector<boost::asio::const_buffer>& 
         return;
     }
 
+    // Two kinds of pending write (both exist on real sockets):
+    //  - accepted: the transport took the bytes at once (they travel on), only the completion handler is late;
+    //    nothing that happens afterwards - cancellation, close, a reset arriving - changes the result: success.
+    //  - blocked: the send buffer is full; nothing is taken until the write unblocks; cancelling or closing
+    //    before that gives operation_aborted and not one byte reaches the peer.
+    c.write_op = op;
+    size_t widx = writes.size();
+    writes.push_back(rec);
+    ns_t d = c.delay_rng.chance(knobs.write_done_zero_p) ? 0 : c.delay_rng.range(0, knobs.write_done_max);
+    bool blocked = d > 0 && c.delay_rng.chance(knobs.write_block_p);
+    c.write_blocked = blocked; c.write_widx = widx; c.write_accepted = 0;
+    if (!blocked) {
+        c.write_accepted = accept_write(c, widx, std::move(data));
+        c.write_event = w.schedule_after(d, "write_done", [this, id]() {
+            Conn& c = *conns[id];
+            c.write_event = 0;
+            if (!c.write_op || !c.write_op->pending()) return;
+            finish_pending_write(c, error_code{});
+        });
+    } else {
+        w.count("net.write_blocked");
+        c.write_event = w.schedule_after(d, "write_unblock", [this, id, data = std::move(data)]() mutable {
+            Conn& c = *conns[id];
+            c.write_event = 0;
+            if (!c.write_op || !c.write_op->pending()) return;
+            if (c.dead) return finish_pending_write(c, c.dead_ec == asio::error::eof ? error_code(asio::error::broken_pipe) : c.dead_ec);
+            c.write_accepted = accept_write(c, c.write_widx, std::move(data));
+            c.write_blocked = false;
+            finish_pending_write(c, error_code{});
+        });
+    }
+}
+
+// completes the pending write_some of a connection; `why` is what the caller wants to report (cancellation, close),
+// which only takes effect while the write is still blocked
+void Network::finish_pending_write(Conn& c, error_code why) {
+    if (!c.write_op || !c.write_op->pending()) return;
+    if (c.write_event) { w.cancel_event(c.write_event); c.write_event = 0; }
+    auto& r = writes[c.write_widx];
+    error_code ec = c.write_blocked ? why : error_code{};
+    size_t n = c.write_blocked ? 0 : c.write_accepted;
+    if (why && c.write_blocked) w.count("net.write_cancelled");
+    else if (why) w.count("net.write_cancel_after_accept");
+    r.done = true; r.result = ec; r.seq_done = w.next_seq(); r.t_done = w.now;
+    w.tr("write_done", c.id, n, ec.value());
+    auto op = c.write_op; c.write_op = nullptr;
+    c.write_blocked = false;
+    op->complete(ec, n);
+}
+
+// the transport takes (a prefix of) the offered bytes and sends them on their way
+size_t Network::accept_write(Conn& c, size_t widx, std::string data) {
+    int id = c.id;
+    size_t offered = data.size();
     size_t accepted = offered;
     if (offered > 1 && c.delay_rng.chance(knobs.short_write_p)) {
         accepted = (size_t)c.delay_rng.range(1, (int64_t)offered - 1);
@@ -276,7 +327,7 @@ void Network::start_write(int id, const std::vector<boost::asio::const_buffer>& 
     data.resize(accepted);
     size_t off = c.c2b_accepted;
     c.c2b_accepted += accepted;
-    rec.accepted = accepted;
+    writes[widx].accepted = accepted;
 
     if (c.blackhole || c.severed) {
         c.c2b_dropped += accepted;
@@ -311,21 +362,7 @@ void Network::start_write(int id, const std::vector<boost::asio::const_buffer>& 
     }
     bytes_c2b += accepted;
     w.tr("write_some", id, offered, accepted);
-
-    c.write_op = op;
-    size_t widx = writes.size();
-    writes.push_back(rec);
-    ns_t d = c.delay_rng.chance(knobs.write_done_zero_p) ? 0 : c.delay_rng.range(0, knobs.write_done_max);
-    c.write_event = w.schedule_after(d, "write_done", [this, id, widx, accepted]() {
-        Conn& c = *conns[id];
-        c.write_event = 0;
-        if (!c.write_op || !c.write_op->pending()) return;
-        auto& r = writes[widx];
-        r.done = true; r.result = {}; r.seq_done = w.next_seq(); r.t_done = w.now;
-        w.tr("write_done", id, accepted);
-        auto op = c.write_op; c.write_op = nullptr;
-        op->complete(error_code{}, accepted);
-    });
+    return accepted;
 }
 
 size_t Network::cut_at_trigger(Conn& c, Dir d, size_t off, size_t len) {
@@ -461,11 +498,7 @@ void Network::fail_pending(Conn& c, error_code ec) {
         c.connect_op->complete(ec);
     }
     if (c.read_op && c.read_op->pending()) { end_read(c, ReadRec::closed, 0); c.read_op->complete(ec, 0); }
-    if (c.write_op && c.write_op->pending()) {
-        if (c.write_event) { w.cancel_event(c.write_event); c.write_event = 0; }
-        auto op = c.write_op; c.write_op = nullptr;
-        op->complete(ec, 0);
-    }
+    finish_pending_write(c, ec);
 }
 
 void Network::client_close(int id, const char* why) {
